@@ -52,7 +52,7 @@ def space(tier, seed):
     hw = ['constructor', '__proto__', 'toString', '1', '']
     hq = []
     for jt in KINDS:
-        for kl in ([(F('a', 1), F('b', 1))], [(('aNR',), F('b', 1))], [(F('a', 1), F('b', 1)), (F('a', 2), F('b', 2))]):
+        for kl in ([(F('a', 1), F('b', 1))], [(('aNR',), F('b', 1))], [(F('a', 1), F('b', 1)), (F('a', 2), F('b', 2))], [(F('a', 1), F('b', 1)), (('NR',), F('b', 2))]):      # last: a record number against a digit string inside a multi-part key (equal as text, different as values)
             for kind, sh in shapes[:2] + shapes[5:6] + shapes[8:9]:
                 q = {'kind': 'select' if kind == 'sel' else 'update', 'where': sh.get('where'), 'join': {'type': jt, 'keys': kl}}
                 if kind == 'sel':
@@ -61,7 +61,7 @@ def space(tier, seed):
                     q['assign'] = sh['assign']
                 hq.append(q)
     hrowsA = [[w, 'x'] for w in hw]
-    hrowsB = [[w, 'x'] for w in hw[:2]] + [['1', 'x'], ['valueOf', 'y'], ['', 'e']]
+    hrowsB = [[w, 'x'] for w in hw[:2]] + [['1', 'x'], ['valueOf', 'y'], ['', 'e'], ['constructor', '1'], ['', '2']]
     return dict(qs=qs, rowsA=rowsA, rowsB=rowsB, k=k, hq=hq, hrowsA=hrowsA, hrowsB=hrowsB)
 
 
